@@ -86,6 +86,31 @@ def make_compare():
     return compare
 
 
+def tail_shapes(rng, n):
+    """what a block ends with x what its handler holds x what follows the block: the final states of a body that keep only error
+    transitions, handlers that are plain actions (dummy fall-through states), blocks that end the program. These are the states the
+    shortcircuit / dummy-state passes fold together."""
+    ends = ['";";', '/;/;', '/;+/;', 's += /[a-z]+/;\n   /;/;', '/ab|c;/;', '/[a-z]+/;\n   ";";', '/[^;]*/;\n   /;/;', 's += /[a-z]*/;\n   /[;,]/;']
+    handlers = ['h1();', 'h1();\n   n = 1;', '', '"!";', 'n = [n + 1];\n   "!";', 'h1();\n   finish;']
+    afters = ['', 'h2();', '"z";', 'h2();\n "z";', 'n = 7;']
+    pres = ['"<";', '', '"<";\n h2();']
+    out = []
+    for _ in range(n):
+        e, h, a, pre = rng.choice(ends), rng.choice(handlers), rng.choice(afters), rng.choice(pres)
+        k = rng.random()
+        if k < 0.55:
+            blk = " try {\n   %s\n }\n catch%s {\n   %s\n }" % (e, rng.choice([" (nomatch)", "", " (outofspace)"]) if "+=" in e else rng.choice([" (nomatch)", ""]), h)
+        elif k < 0.8:
+            if not h:
+                h = "n = 2;"
+            blk = " case {\n  %s -> {\n   h1();\n  }\n  else -> {\n   %s\n  }\n }" % (e.split(";\n")[-1].rstrip(";") if "+=" not in e.split(";\n")[-1] else '"q"', h)
+        else:
+            blk = " try {\n  optional {\n   %s\n  }\n }\n catch {\n   %s\n }" % (e, h)
+        src = "out str[4] s;\nout int n = 0;\nhook h1;\nhook h2;\nparser {\n %s\n%s\n %s\n}\n" % (pre, blk, a)
+        out.append(src)
+    return out
+
+
 def run(ctx: Ctx):
     rng = ctx.rng
     quick = ctx.quick
@@ -107,6 +132,10 @@ def run(ctx: Ctx):
         src = gen.prog_src(ast)
         variants = [("O0", src, list(ast.args) + ["-O0", "-findirect-start-ptr"])] + [("v", src, list(ast.args) + v + ["-findirect-start-ptr"]) for v in (["-O2"], ["-O3"], ["-O1", "-fshortcircuit-fallthroughs"])]
         cases.append(diff.Case("lexer", variants, ast=ast))
+    for src in tail_shapes(rng, 30 if quick else 300):
+        vs = [["-O1"], ["-O3"], ["-O0", "-fshortcircuit-fallthroughs"]]
+        cases.append(diff.Case("tails", [("O0", src, ["-O0", "-findirect-start-ptr"])] + [("v", src, v + ["-findirect-start-ptr"]) for v in vs],
+                               seeds=[b"<ab;zz", b"ab;zz", b"<c;!z", b"<ab,!z", b"<;;!", b"<abcdef;z"]))
     for fn, src, args, seeds in work.corpus():
         b = fn.rsplit("/", 1)[-1]
         if quick and b in ("gtfs-realtime.nmfu", "ttc_rdf.nmfu"):
